@@ -43,6 +43,8 @@ def run(ctx):
     r3_sink(chk, fx)
     r4_asset(chk, fx)
     r5_annotation(chk, fx)
+    r6_no_err_dropping_adaptor(chk, fx)
+    r7_unreadable_statement_fails_fetch(chk, fx)
 
 
 def r1_compare(chk, fx):
@@ -389,3 +391,102 @@ def r5_annotation(chk, fx):
         len(fails), len(only_logged)), t["def"], loc_of(t.get("sp")), holds=not only_logged,
         key="C03/R5 Maybe<Candidate>::read_xml malformed-annotation-only-logged",
         detail="the statement drops out of the candidates; compare then sees (absent, present) and deletes the installed policy")
+
+
+# ---------------------------------------------------------------------------------------------
+RESULT_TY = ("std::result::Result<", "core::result::Result<")
+
+
+def drops_err(fn, gargs, item_of):
+    """Does this iterator adaptor call silently discard the Err items of an iterator over Results?  `item_of(self_ty)` gives the item
+    type of the receiver when it was produced by a map / filter_map in the workspace."""
+    s = T.short(fn, 2)
+    g = list(gargs or [])
+    if s == "Iterator::flatten":
+        it = item_of(g[0]) if g else None
+        return bool(it) and it.startswith(RESULT_TY)
+    if s in ("Iterator::flat_map",):
+        # B = IntoIterator returned by the closure
+        return len(g) > 1 and g[1].startswith(RESULT_TY)
+    if s in ("Iterator::filter_map", "Iterator::map_while"):
+        f = g[-1] if g else ""
+        return "Result::<" in f and f.rstrip().endswith(("::ok", "::ok}"))
+    if s in ("Iterator::filter", "Iterator::take_while", "Iterator::skip_while"):
+        f = g[-1] if g else ""
+        return "Result::<" in f and f.rstrip().endswith(("::is_ok", "::is_ok}"))
+    return False
+
+
+def r6_no_err_dropping_adaptor(chk, fx):
+    """A failed IRR answer must stay an error until sink_error has seen it (R3).  An iterator adaptor that flattens / filters an
+    iterator over Results discards the Err items on the way: the evaluation then succeeds with less (or nothing), and compare empties
+    the policy.  All adaptor calls of the library's query code and the agent's evaluation code are classified by their item types."""
+    # self-test of the classifier (the rule's expected count on a correct tree is zero)
+    probe = {"X": "std::result::Result<u8, E>"}
+    assert drops_err("std::iter::Iterator::flatten", ["X"], probe.get) and not drops_err("std::iter::Iterator::flatten", ["Y"], probe.get)
+    assert drops_err("std::iter::Iterator::filter_map", ["I", "u8", "fn(Result<u8, E>) -> Option<u8> {std::result::Result::<u8, E>::ok}"], probe.get)
+    produced = {}
+    sites = []
+    for name, b in sorted(fx.mir.items()):
+        if b.crate not in ("bgpfu", AGENT) or "::tests::" in name:
+            continue
+        if b.crate == AGENT and "::policies::eval::" not in name:
+            continue
+        for c in b.calls():
+            if c.macro:
+                continue
+            s = T.short(c.name(), 2)
+            if s in ("Iterator::map", "Iterator::filter_map") and len(c.gargs or []) >= 2:
+                produced[b.local_ty(c.dest["l"])] = c.gargs[1]
+            if s.startswith("Iterator::"):
+                sites.append((name, b, c))
+    n = 0
+    for (name, b, c) in sites:
+        s = T.short(c.name(), 2)
+        if s not in ("Iterator::flatten", "Iterator::flat_map", "Iterator::filter_map", "Iterator::map_while", "Iterator::filter",
+                     "Iterator::take_while", "Iterator::skip_while"):
+            continue
+        n += 1
+        bad = drops_err(c.name(), c.gargs, produced.get)
+        chk.instance("C03/R6", "%s in %s does not discard Err items" % (s, T.short(T.strip_generics(name), 3)), name, c.loc(), holds=not bad,
+                     key="C03/R6 %s drops-Err-items in %s" % (s, T.short(T.strip_generics(name), 3)),
+                     detail=None if not bad else "the adaptor runs over Result items and keeps only the Ok ones: a failed query no longer fails the evaluation")
+    chk.instance("C03/R6", "iterator adaptors over query results classified (%d filtering/flattening sites, %d adaptor calls)" % (n, len(sites)),
+                 "bgpfu", None, holds=len(sites) >= 8, key="C03/R6 adaptor-sites-not-found")
+
+
+# ---------------------------------------------------------------------------------------------
+READ_CALLS = ("ReadXml::read_xml", "BorrowedReadXml::borrowed_read_xml", "NsReader::read_resolved_event", "NsReader::read_text",
+              "NsReader::read_to_end", "TermFrom::try_into_ranges")
+
+
+def r7_unreadable_statement_fails_fetch(chk, fx):
+    """What the agent cannot read it must not take for absent: a policy-statement that drops out of the fetched candidates (or of the
+    installed state) while it is on the router is, to compare, a policy that is no longer managed (Delete) or not installed (re-create).
+    So in the configuration readers a failed nested read — a nested reader, a text read, the event read itself — must fail the fetch.
+    Decided on every explored path of the three statement-level readers: a path that assumes such a call returned Err ends in `return Err`."""
+    from vlib import absint as A
+    targets = [n for n in sorted(fx.thir) if n.endswith("::read_xml") and "::policies::fetch::" in n and "::tests::" not in n
+               and ("Policies<T>" in n or "Maybe<" in n)]
+    chk.floor("C03/R7 statement-level readers", len(targets), 3)
+    n = 0
+    for name in targets:
+        chk.analysed(name)
+        for p in A.Interp(fx, crates=(AGENT,), max_paths=8000).explore(name):
+            failed = sorted(k for k, v in p.assume.items() if v == "Err" and k.startswith("variant:") and "→" not in k.split("(")[0]
+                            and T.short(k[8:].split("(")[0].split("#")[0], 2) in READ_CALLS)
+            if not failed or p.end == "abort":
+                continue
+            n += 1
+            ok = p.end == "return" and A.is_res(p.ret) and p.ret[2] == "Err"
+            what = T.short(failed[0][8:].split("(")[0].split("#")[0], 2)
+            chk.instance("C03/R7", "%s: a failed %s fails the fetch" % (R_short(name), what), name, loc_of(fx.thir[name].get("sp")), holds=ok,
+                         key="C03/R7 %s failed-%s-does-not-fail-the-fetch" % (R_short(name), what),
+                         detail=None if ok else "the reader goes on (%s) after %s returned Err: the statement silently drops out of what was fetched"
+                         % (p.end, what))
+    chk.floor("C03/R7 failing nested reads explored", n, 6)
+
+
+def R_short(name):
+    from . import readers as R
+    return R.short_fn(name)
